@@ -110,7 +110,7 @@ PathOdd == {"valid", "seg_overlong", "seg_illegal_chars", "seg_pct_slash",
             "seg_empty", "seg_dotdot", "seg_unicode", "num_huge",
             "num_negative", "num_nonint", "extra_segments",
             "trailing_slash", "method_odd", "query_string", "long_path",
-            "garbage_body"}
+            "garbage_body", "seg_uri_unsafe"}
 
 TextOdd == {"valid", "empty", "random_text", "overlong", "whitespace",
             "huge_number", "negative_number", "non_integer"}
@@ -123,7 +123,8 @@ FeatClasses == [
     asn    |-> {"asn_overflow", "asn_negative", "asn_text", "asn_garbage"},
     res    |-> {"range_overflow", "range_reversed", "res_garbage",
                 "res_huge_list"},
-    handle |-> {"handle_overlong", "handle_illegal", "handle_empty"},
+    handle |-> {"handle_overlong", "handle_illegal", "handle_empty",
+                "handle_uri_unsafe"},
     cert   |-> {"cert_truncated", "cert_bitflip", "cert_not_base64",
                 "cert_empty"},
     uri    |-> {"uri_scheme", "uri_no_slash", "uri_garbage",
